@@ -29,6 +29,8 @@ func checkC01(p *Prog, r *Report) {
 	ruleC01Counters(p, a, r)
 	ruleC01CounterWrites(p, a, r)
 	ruleC01PerRendering(p, a, r)
+	ruleC01TreeHop(p, a, r)
+	ruleC01Operand(p, a, r)
 	ruleC01RuneGuard(p, a, r)
 	ruleC01Rewrap(p, a, r)
 	ruleDivisionGuards(p, a, r, "R-C01-D", false)
